@@ -1,6 +1,10 @@
 import FinamModel.DriverUtil
+import FinamModel.DriverGrid
 import FinamModel.DriverMeta
+import FinamModel.DriverConnect
 import FinamModel.Output
+import FinamModel.DriverTime
+import FinamModel.DriverLink
 /-! Line-protocol handlers: one JSON object in, one JSON object out. -/
 namespace Finam.Driver
 open Lean
@@ -29,8 +33,10 @@ def handleC09 (j : Json) : Json :=
 
 def handlers : List (String × (Json → Json)) := [
   ("c19", C19.handle),
-  ("c09", handleC09)
-]
+  ("c06", C06.handle),
+  ("c09", handleC09),
+  ("c08", C08.handle)
+] ++ gridHandlers ++ timeHandlers
 
 def step (line : String) : String :=
   match Json.parse line with
